@@ -14,6 +14,10 @@ ValuesM == {V("None"), V("one")}
 ExcsM   == {V("e1")}
 SuccM   == {"always", "eqOne"}
 FailM   == {"always", "isE1"}
+\* quick length-4 alphabet
+ValuesQ4 == {V("None"), V("one"), V("nest")}
+SuccQ4   == {"always", "never", "eqOne"}
+FailQ4   == {"always", "isE1"}
 \* quick length-5 alphabet
 CbQ     == {"pass", "rec"}
 SuccQ   == {"eqOne"}
